@@ -166,7 +166,7 @@ def main():
             os.close(r)
             try:
                 import faulthandler
-                faulthandler.dump_traceback_later(job.get('timeout', 100), exit=True)
+                faulthandler.dump_traceback_later(job.get('timeout', 240), exit=True)
                 res = run_job(job)
             except BaseException as e:
                 res = {'error': type(e).__name__, 'message': str(e)[:300], 'trace': traceback.format_exc()[-1200:]}
